@@ -143,7 +143,7 @@ def _basis_lines(model):
             letter = MD.LCHARS[ell].upper() if model["letter_case"] == "upper" else MD.LCHARS[ell]
             lines.append(f"{MD.nfunc(ell, kind):2d} {letter} {model['shell_tag']}")
             for a, d in zip(sh["exponents"], sh["coeffs"][:, 0]):
-                lines.append(_fixed(a, dcon, 20 if dcon <= 10 else 28) + _fixed(d, dcon, 17 if dcon <= 10 else 24))
+                lines.append(_fixed(a, dcon, 20 if dcon <= 10 else 28) + " " + _fixed(d, dcon, 17 if dcon <= 10 else 24))
     lines.append("")
     lines.append("$END")
     return lines
